@@ -284,7 +284,11 @@ func (fr *frame) runFrame() {
 		}
 		r := recover()
 		if isEnginePanic(r) {
-			panic(r)
+			switch r.(type) {
+			case pathEnd, killed, unsupported, engineBug:
+				panic(r)
+			}
+			panic(engineBug{fmt.Sprintf("%v [in %s at %s: %v]", r, fr.fn, fr.pos(), fr.curInstr)})
 		}
 		fr.panicking = true
 		fr.panic = r
@@ -329,6 +333,11 @@ func (fr *frame) runFrame() {
 		}
 	}
 }
+
+// engineBug wraps an unexpected Go panic of the executor with the SSA location it happened at.
+type engineBug struct{ msg string }
+
+func (e engineBug) String() string { return e.msg }
 
 type continuation int
 
